@@ -105,6 +105,7 @@ class CellVariable:
                                                                 self.BCs))
         if self.BCsTerm_precalc:
             self._BCsTerm  = boundaryConditionsTerm(self.BCs)
+        self._BCs_epoch = self.BCs._epoch
         self.value.modified = False
 
     @property
@@ -340,6 +341,11 @@ class CellVariable:
         if self.BCsTerm_precalc:
             self._BCsTerm = boundaryConditionsTerm(self.BCs)
  
+        # The BCs object may be shared with other CellVariables: count each
+        # consumed modification, so that they can tell their cache is stale.
+        if self.BCs.modified:
+            self.BCs._epoch += 1
+        self._BCs_epoch = self.BCs._epoch
         self.BCs.modified = False
         self.value.modified = False
         
